@@ -150,6 +150,7 @@ def validate_lines(lines, max_violations=200):
     last_t = None
     last_t_line = 0
     last_t_event = "?"
+    recreated = set()
 
     def tname(a):
         t = types.get(a)
@@ -261,6 +262,8 @@ def validate_lines(lines, max_violations=200):
                 rep.notes["container_type_not_child_of_parent_type"] += 1
             if alias in conts and conts[alias][1]:
                 rep.notes["container_alias_redefined_while_alive"] += 1
+            if cname in names:
+                recreated.add(alias)      # same name as an earlier container: SimGrid re-creates the container of a migrating actor/VM
             conts[alias] = [ty, True, cname, pkey]
             names[cname] = alias
             rep.ncontainers += 1
@@ -311,7 +314,8 @@ def validate_lines(lines, max_violations=200):
             elif name == "PajePopState":
                 if not st:
                     rep.add("POP_EMPTY", name, ln, "PopState on container %s (%s), state type %s (%s): the stack is empty" %
-                            (c, conts[key][2] if key is not None else "?", ty, tname(ty)), line, "type=" + tname(ty))
+                            (c, conts[key][2] if key is not None else "?", ty, tname(ty)), line,
+                            "type=" + tname(ty) + (":recreated-container" if key in recreated else ""))
                 else:
                     st.pop()
             elif name == "PajeSetState":
